@@ -7,6 +7,9 @@ import c02
 
 CONFIGS = ['prod']
 EXPLANATION = (
+    'SEM (primary): purge_old_deletes / will_apply / merge / diff / the mutators summarised by abstract interpretation (purge removes and returns exactly t'
+    'he tombstones before the cut-off and touches nothing else; will_apply refuses before the cut-off); VSEM: cut-off = min over all sources (missing = zer'
+    'o) minus the forgiveness constant, strict predicate; P4: the purge handler against every storage answer. Structural fallback: '
     'Decided clauses: P1 purge_old_deletes mutates only the tombstone map (P-EFFECT over its body and workspace callees); '
     'P2 the one cut-off predicate that selects tombstones for purge is the predicate will_apply refuses on, diff skips on when the '
     'replica holds nothing, and merge skips remote deletes on, and it is a strict `ts < cut-off` test, with the purge keeping a '
